@@ -274,7 +274,7 @@ def collect(ck: Check, n_cases: int, modes, fixed=()):
                       f"{len(hung)} program(s))",
                       {"backend": small["backend"], "prog": small["prog"], "choices": small["choices"],
                        "timeout": small["timeout"], "hang": True})
-    return [r for r in out if "crash" not in r and not r.get("hang")]
+    return [r for r in out if "crash" not in r and not r.get("hang") and not r.get("skipped")]
 
 
 # ------------------------------------------------------------------ oracles
